@@ -157,6 +157,16 @@ class StrRef:
     def chars(s): return s.obj.chars[s.a:s.b]
     def bytelen(s): return sum(w for _, w in s.chars())
 
+class SliceRef:
+    def __init__(s, lref, lo, hi): s.lref, s.lo, s.hi = lref, lo, hi   # ref to python list, range
+class SliceIter:
+    def __init__(s, sl): s.lref, s.lo, s.hi = sl.lref, sl.lo, sl.hi
+class RevIter:
+    def __init__(s, it): s.it = it
+class EnumIter:
+    def __init__(s, it): s.it, s.n = it, 0
+class RString:
+    def __init__(s, chars): s.chars = chars
 class CharIndices:
     def __init__(s, sr): s.sr, s.i, s.off = sr, 0, 0
 class Peekable:
@@ -413,7 +423,10 @@ class Interp:
             t = bytes(m.group(1), 'utf-8').decode('unicode_escape')
             so = StrObj([(ord(x), len(x.encode())) for x in t])
             return StrRef(so, 0, len(so.chars))
-        if c.startswith('b"') or 'promoted[' in c: return ('opaque', c)
+        if c.startswith('b"'):
+            import ast
+            return list(ast.literal_eval(c))
+        if 'promoted[' in c: return ('opaque', c)
         if c.startswith('ZeroSized: '):
             return Agg(c[len('ZeroSized: '):], None, [])
         raise Unsupported('const ' + c)
@@ -491,10 +504,11 @@ class Interp:
         raise Unsupported('stmt ' + ln)
 
     def rvalue(s, f, frame, rv, dty):
-        m = re.fullmatch(r'(.*) as (\w+) \((\w+)\)', rv)
+        m = re.fullmatch(r'((?:copy|move|const) .*) as (.+) \((\w+)(?:\(.*\))?\)', rv)
         if m:
             v = s.operand(f, frame, m.group(1))
             src_ty = s.operand_ty(f, m.group(1))
+            if m.group(3) == 'Transmute' and isinstance(v, Agg) and v.ty == 'NonNull': return v.f[0]
             if m.group(3) == 'IntToFloat':
                 if is_sym(v):
                     sg = INT_TYPES.get(src_ty, (64, 1))[1]
@@ -594,6 +608,8 @@ class Interp:
         if callee in s.funcs: return s.call(callee, a)
         r = s.resolve(callee, a)
         if r: return s.call(r, a)
+        r_ = s.seq_models(re.sub(r"<'_>", '', callee) if False else callee, a)
+        if r_ is not NotImplemented: return r_
         m = re.fullmatch(r'(\w+)::(\w+)', callee)
         if m:
             for name, fn in s.funcs.items():
@@ -647,6 +663,7 @@ class Interp:
         if c in ('<char as Into<String>>::into', '<&str as Into<String>>::into'): return ('String', a[0])
         r_ = s.number_models(c, a)
         if r_ is not None: return r_
+
         m = re.fullmatch(r'RefCell::<.*>::(borrow|borrow_mut)', c)
         if m:
             cell = a[0]                     # Ref to Agg('RefCell', [value, flag])
@@ -742,6 +759,92 @@ class Interp:
             return s.clone(v)
         raise Unsupported('call ' + callee)
 
+    def as_slice(s, v):
+        if isinstance(v, SliceRef): return v
+        if isinstance(v, Ref): return SliceRef(v, 0, len(v.get()))
+        raise Unsupported('as_slice ' + repr(v))
+
+    def iter_next(s, it):
+        if isinstance(it, Ref): it = it.get()
+        if isinstance(it, Agg) and it.ty == 'Box': it = it.f[0].f[0].f[0].get()
+        if isinstance(it, SliceIter):
+            if it.lo >= it.hi: return NONE()
+            r = mk_some(Ref(it.lref.box, it.lref.path + (it.lo,))); it.lo += 1; return r
+        if isinstance(it, RevIter):
+            b = it.it
+            if b.lo >= b.hi: return NONE()
+            b.hi -= 1; return mk_some(Ref(b.lref.box, b.lref.path + (b.hi,)))
+        if isinstance(it, EnumIter):
+            r = s.iter_next(it.it)
+            if r.var == 0: return r
+            k = it.n; it.n += 1
+            return mk_some(Agg('tuple', None, [k, r.f[0]]))
+        raise Unsupported('iter_next ' + repr(it))
+
+    def seq_models(s, c, a):
+        c2 = c.replace('std::slice::Iter', 'Iter').replace('std::ops::', '')
+        if re.fullmatch(r'core::slice::<impl \[.*\]>::iter', c2): return SliceIter(s.as_slice(a[0]))
+        if re.fullmatch(r'<Iter<.*> as Iterator>::rev', c2): return RevIter(a[0])
+        if re.fullmatch(r'<Iter<.*> as Iterator>::enumerate', c2): return EnumIter(a[0])
+        m = re.fullmatch(r'<\[.*\] as Index<(RangeTo|RangeFrom|Range)<usize>>>::index', c2)
+        if m:
+            sl = s.as_slice(a[0]); r = a[1]
+            n = sl.hi - sl.lo
+            lo, hi = {'RangeTo': (0, r.f[0]), 'RangeFrom': (r.f[0], n), 'Range': (r.f[0], r.f[-1])}[m.group(1)]
+            if is_sym(lo) or is_sym(hi): raise Unsupported('symbolic slice bounds')
+            if lo > hi or hi > n: raise Panic('slice index out of range')
+            return SliceRef(sl.lref, sl.lo + lo, sl.lo + hi)
+        if re.fullmatch(r'Box::<.*>::new', c2):
+            return Agg('Box', None, [Agg('Unique', None, [Agg('NonNull', None, [Ref(Box(a[0]))])])])
+        if re.fullmatch(r'<&mut dyn Iterator<.*> as IntoIterator>::into_iter', c2): return a[0]
+        if re.fullmatch(r'<&mut dyn Iterator<.*> as Iterator>::next', c2): return s.iter_next(a[0].get())
+        m = re.fullmatch(r'<Enumerate<Iter<.*>> as Iterator>::find::<(\{closure@.*\})>', c2)
+        if m:
+            it = a[0].get()
+            while True:
+                r = s.iter_next(it)
+                if r.var == 0: return NONE()
+                item = r.f[0]
+                ok = s.call_closure(a[1], [Ref(Box(item))], by_ref=True)
+                if s.branch(ok if not isinstance(ok, bool) else ok): return mk_some(item)
+        if c2 == 'core::num::<impl usize>::saturating_sub':
+            x, y = a
+            if not is_sym(x) and not is_sym(y): return max(0, x - y)
+            xb = x if is_sym(x) else z3.BitVecVal(x, 64); yb = y if is_sym(y) else z3.BitVecVal(y, 64)
+            return z3.If(z3.ULT(xb, yb), z3.BitVecVal(0, 64), xb - yb)
+        m = re.fullmatch(r'<str as Index<(RangeTo|RangeFrom|Range)<usize>>>::index', c2)
+        if m:
+            sr = a[0]; r = a[1]
+            offs, total = [], 0
+            for _, w in sr.chars(): offs.append(total); total += w
+            offs.append(total)
+            lo, hi = {'RangeTo': (0, r.f[0]), 'RangeFrom': (r.f[0], total), 'Range': (r.f[0], r.f[-1])}[m.group(1)]
+            if is_sym(lo) or is_sym(hi): raise Unsupported('symbolic str slice bounds')
+            if lo > hi or hi > total or lo not in offs or hi not in offs: raise Panic('str slice out of range / not on char boundary')
+            return StrRef(sr.obj, sr.a + offs.index(lo), sr.a + offs.index(hi))
+        if c2.startswith("core::fmt::rt::Argument::<'_>::new_display"): return ('fmtarg', 'display', a[0])
+        m = re.fullmatch(r"Arguments::<'_>::new::<\d+, \d+>", c2)
+        if m: return ('fmtargs', a[0], a[1])
+        if c2 in ('format', 'alloc::fmt::format') and isinstance(a[0], tuple) and a[0][0] == 'fmtargs':
+            tpl = a[0][1]; args = a[0][2].get(); out = []; k = 0; ai = 0
+            while True:
+                n = tpl[k]; k += 1
+                if n == 0: break
+                if n < 0x80:
+                    out += [(x, 1) for x in tpl[k:k+n]]; k += n      # ASCII literals only in this probe
+                elif n == 0xC0:
+                    arg = args[ai]; ai += 1
+                    v = arg[2]
+                    while isinstance(v, Ref): v = v.get()
+                    out += list(v.chars()) if hasattr(v, 'chars') and callable(v.chars) else (list(v.chars) if hasattr(v, 'chars') else [(ord('?'), 1)])
+                else:
+                    # placeholder with options: skip option fields, emit opaque piece (probe only)
+                    k += (4 if n & 1 else 0) + (2 if n & 2 else 0) + (2 if n & 4 else 0) + (2 if n & 8 else 0)
+                    ai += 1; out.append((ord('?'), 1))
+            return RString(out)
+        if c2 == 'must_use::<String>': return a[0]
+        return NotImplemented
+
     def ordering(s, lt, eq, gt=None):
         if s.branch(lt): return mk_some(Agg('Ordering', -1, []))
         if s.branch(eq): return mk_some(Agg('Ordering', 0, []))
@@ -833,7 +936,16 @@ class Interp:
         s.sumcache[key] = out
         return out
 
-    def call_closure(s, clo, args):
+    def call_closure(s, clo, args, by_ref=False):
+        if by_ref:
+            for name, f in s.funcs.items():
+                if '{closure' in name and f.params and clo.ty in f.params[0][1]:
+                    first = Ref(Box(clo)) if f.params[0][1].startswith('&') else clo
+                    return s.call(name, [first] + args)
+            raise Unsupported('closure ' + clo.ty)
+        return s.call_closure_old(clo, args)
+
+    def call_closure_old(s, clo, args):
         m = re.search(r'closure@marwood/src/(\w+)\.rs:(\d+):(\d+)', clo.ty)
         for name, f in s.funcs.items():
             if '{closure#' in name and f.params and clo.ty in f.params[0][1]:
